@@ -233,3 +233,78 @@ def loop_invariant_store(crate, fn, head, **evkw):
         if all(x.store.get(k) == v for x in rows) and not _paths.term_contains(v, lambda y: y and y[0] in ("load", "unknown")):
             out[k] = v
     return out
+
+
+def rels(row):
+    """the row's comparison atoms as relations that HOLD on the row, in canonical form: (lhs, op, rhs) with op in Lt / Le / Eq / Ne —
+    `while a < b`, `if a >= b { break }`, `if !(b > a) { break }` all give (a, 'Lt', b)"""
+    out = []
+    for a, s in row.atoms:
+        if not (isinstance(a, tuple) and a and a[0] == "bin" and a[1] in ("Lt", "Le", "Gt", "Ge", "Eq", "Ne")):
+            continue
+        v = s.single()
+        if v not in (0, 1):
+            continue
+        op, x, y = a[1], a[2], a[3]
+        if op == "Gt":
+            op, x, y = "Lt", y, x
+        elif op == "Ge":
+            op, x, y = "Le", y, x
+        if op == "Lt":
+            out.append((x, "Lt", y) if v else (y, "Le", x))
+        elif op == "Le":
+            out.append((x, "Le", y) if v else (y, "Lt", x))
+        elif op == "Eq":
+            out.append((x, "Eq", y) if v else (x, "Ne", y))
+        else:
+            out.append((x, "Ne", y) if v else (x, "Eq", y))
+    return out
+
+
+def helper_only_called_from(c, name, allowed, seen=()):
+    """`name` is a function the reference tree does not have (paths.is_new_helper: loop-free, evaluated inline wherever a row passes
+    through it, so its effects are judged in the context of its callers) and every caller is in `allowed` (a set of function names or
+    a predicate) or is itself such a helper"""
+    from mir import callee_id
+    f = c.fn(name, required=False)
+    if f is None or not paths.is_new_helper(f) or name in seen:
+        return False
+    ok_name = allowed if callable(allowed) else (lambda n: n in allowed)
+
+    def owner(g):
+        while g.kind == "closure" and g.parent in c.fns:
+            g = c.fns[g.parent]
+        return g
+    callers = [owner(g) for g in c.fns.values() if g.kind != "promoted" and any(callee_id(t["call"]) == f.id for _, t in g.calls())]
+    return bool(callers) and all(ok_name(g.name) or helper_only_called_from(c, g.name, allowed, seen + (name,)) for g in callers)
+
+
+def mask_tests(row):
+    """{mask: 0 | 1} for every `x & mask` (mask constant) the row decides to be zero (0) or non-zero (1), however it is tested:
+    `!= 0`, `== 0` with the branches swapped, a `match` on the masked value, …; keyed by (operand term, mask)"""
+    out = {}
+
+    def masked(t):
+        while isinstance(t, tuple) and t and t[0] == "cast":
+            t = t[1]
+        if isinstance(t, tuple) and t and t[0] == "bin" and t[1] == "BitAnd" and is_const(t[3]):
+            return (t[2], const_val(t[3]))
+        if isinstance(t, tuple) and t and t[0] == "bin" and t[1] == "BitAnd" and is_const(t[2]):
+            return (t[3], const_val(t[2]))
+        return None
+    for lhs, rel, rhs in rels(row):
+        k = masked(lhs)
+        if k is not None and rel in ("Eq", "Ne") and is_const(rhs):
+            rv = const_val(rhs)
+            if rv == 0:
+                out[k] = 0 if rel == "Eq" else 1
+            elif rel == "Eq" and rv & k[1] == rv and rv != 0:
+                out[k] = 1
+    for a, s in row.atoms:
+        k = masked(a)
+        if k is not None:
+            if s.single() == 0:
+                out[k] = 0
+            elif not s.contains(0):
+                out[k] = 1
+    return out
